@@ -26,20 +26,20 @@ let parse_layout (proto : Record.dtype list) (points : Record.rvalue list list) 
   ignore n;
   if s = "" then [] else
     Stdlib.List.map (fun p ->
-        let a = String.sub p 1 (String.length p - 1) in
+        let a = Stdlib.String.sub p 1 (Stdlib.String.length p - 1) in
         match p.[0] with
         | 'I' -> FormatSpec.SIndex (n_of_decimal a)
         | 'G' -> FormatSpec.SIgnored (n_of_decimal a)
         | 'D' ->
-          let lens = Stdlib.List.map int_of_string (String.split_on_char '.' a) in
+          let lens = Stdlib.List.map int_of_string (Stdlib.String.split_on_char '.' a) in
           FormatSpec.SData (Stdlib.List.mapi (fun i k ->
               if i >= Array.length streams then failwith "more chunks than records";
               let (c, rest) = take_n k streams.(i) [] in
               streams.(i) <- rest; c) lens)
-        | _ -> failwith ("bad packet token " ^ p)) (String.split_on_char '_' s)
+        | _ -> failwith ("bad packet token " ^ p)) (Stdlib.String.split_on_char '_' s)
 
 let parse_entry (t : string) : FileSpec.fsection =
-  match String.split_on_char ':' t with
+  match Stdlib.String.split_on_char ':' t with
   | ["X"] -> FileSpec.FXml
   | ["B"; pad; h] -> FileSpec.FBlob (bytes_of_hex h, n_of_decimal pad)
   | ["P"; pad; proto; pts; lay] ->
@@ -60,13 +60,13 @@ let run_specenc (toks : string list) : string =
       let xo = PageSpec.phys_of_log (FileSpec.xml_start (n_of_int 48) fl xl) in
       let followed = FileSpec.pcs_followed fl xl (FileSpec.spec_file_filler fl x) in
       Printf.sprintf "ok len=%d h=%s offs=%s xoff=%s followed=%d file=%s" (Stdlib.List.length f)
-        (fnv_hex (fnv_bytes fnv_init f)) (String.concat "," (Stdlib.List.map decimal_of_n offs))
+        (fnv_hex (fnv_bytes fnv_init f)) (Stdlib.String.concat "," (Stdlib.List.map decimal_of_n offs))
         (decimal_of_n xo) (if followed then 1 else 0) (hex_of_bytes f)
   | _ -> failwith "bad SPECENC case"
 
 let parse_desc (t : string) : FileSpec.descriptor =
-  let a = String.sub t 1 (String.length t - 1) in
-  match t.[0], String.split_on_char ':' a with
+  let a = Stdlib.String.sub t 1 (Stdlib.String.length t - 1) in
+  match t.[0], Stdlib.String.split_on_char ':' a with
   | 'b', [off; ln] -> FileSpec.DBlob (n_of_decimal off, n_of_decimal ln)
   | 'p', [off; recs; proto] -> FileSpec.DPc (n_of_decimal off, n_of_decimal recs, parse_proto proto)
   | _ -> failwith ("bad descriptor " ^ t)
@@ -88,21 +88,21 @@ let run_specdec (toks : string list) : string =
     (* [disjoint] is exact when the container and every descriptor are fine: sections_ok is their
        conjunction with pairwise disjointness *)
     let head = Printf.sprintf "wf=%d container=%d descs=%s disjoint=%d xml=%s" (b wf) (b container)
-        (String.concat "" (Stdlib.List.map (fun x -> string_of_int (b x)) each))
+        (Stdlib.String.concat "" (Stdlib.List.map (fun x -> string_of_int (b x)) each))
         (b (if container && Stdlib.List.for_all (fun x -> x) each then sections else disjoint))
         (if container then fnv_hex (fnv_bytes fnv_init (FileSpec.file_xml f)) else "-") in
     if structure_only || not wf then head else
       (match FileSpec.spec_decode_file f dx with
        | None -> head ^ " # undecodable"
        | Some d ->
-         head ^ String.concat "" (Stdlib.List.map (fun c ->
+         head ^ Stdlib.String.concat "" (Stdlib.List.map (fun c ->
              match c with
              | FileSpec.CBlob data ->
                Printf.sprintf " # bl ok n=%d h=%s" (Stdlib.List.length data) (fnv_hex (fnv_bytes fnv_init data))
              | FileSpec.CPoints pts ->
                let txt = show_points pts in
                Printf.sprintf " # pc n=%d end=none h=%s%s" (Stdlib.List.length pts) (fnv_string txt)
-                 (if String.length txt <= 1500 then " pts=" ^ txt else "")) d.FileSpec.dec_items))
+                 (if Stdlib.String.length txt <= 1500 then " pts=" ^ txt else "")) d.FileSpec.dec_items))
   | _ -> failwith "bad SPECDEC case"
 
 let run (kind : string) (toks : string list) : string option =
